@@ -17,6 +17,7 @@
 package main
 
 import (
+	"errors"
 	"fmt"
 	"os"
 	"path/filepath"
@@ -26,10 +27,13 @@ import (
 	"github.com/nspcc-dev/bbolt"
 	"github.com/nspcc-dev/neofs-node/pkg/local_object_storage/blobstor/fstree"
 	meta "github.com/nspcc-dev/neofs-node/pkg/local_object_storage/metabase"
+	"github.com/nspcc-dev/neofs-node/pkg/local_object_storage/shard"
 	"github.com/nspcc-dev/neofs-node/pkg/local_object_storage/writecache"
 	"github.com/nspcc-dev/neofs-node/verif/lib/ev"
 	"github.com/nspcc-dev/neofs-node/verif/lib/sched"
 	ss "github.com/nspcc-dev/neofs-node/verif/worlds/schedshard"
+	apistatus "github.com/nspcc-dev/neofs-sdk-go/client/status"
+	"github.com/nspcc-dev/neofs-sdk-go/object"
 	oid "github.com/nspcc-dev/neofs-sdk-go/object/id"
 	"go.uber.org/zap"
 )
@@ -85,8 +89,31 @@ func opClass(op string) string {
 	return op
 }
 
+// enginePut stores an object the way the storage engine drives a shard: Shard.Put does no existence
+// checks of its own ("these checks should be executed ahead of Put by storage engine"), the engine
+// asks Exists first and does not call Put for an object that is already there (also when it is
+// reported as expired) or that is reported as removed.
+func (x *world) enginePut(o *object.Object) (stored bool, err error) {
+	ex, err := x.w.Sh.Exists(o.Address(), false)
+	if err != nil {
+		if shard.IsErrObjectExpired(err) {
+			return false, nil
+		}
+		if errors.Is(err, apistatus.ErrObjectAlreadyRemoved) || errors.Is(err, apistatus.ErrObjectNotFound) {
+			return false, err
+		}
+	}
+	if ex {
+		return false, nil
+	}
+	if err := x.w.Sh.Put(o, nil); err != nil {
+		return false, err
+	}
+	return true, nil
+}
+
 func (x *world) put() {
-	if err := x.w.Sh.Put(ss.Obj(objR, sizeR), nil); err == nil {
+	if stored, err := x.enginePut(ss.Obj(objR, sizeR)); err == nil && stored {
 		x.m.stored = true
 		if x.m.removalSeen {
 			x.m.freshUpload = true
@@ -96,7 +123,7 @@ func (x *world) put() {
 	}
 }
 func (x *world) tomb() {
-	if err := x.w.Sh.Put(ss.Tombstone(objT, objR, tsExp), nil); err == nil && x.m.stored && x.m.removedBy == "" {
+	if _, err := x.enginePut(ss.Tombstone(objT, objR, tsExp)); err == nil && x.m.stored && x.m.removedBy == "" {
 		x.m.removedBy = "tombstone"
 	}
 }
@@ -390,6 +417,6 @@ func main() {
 		scs = append(scs, list(depth, pre, " [deep]", true)...)
 	}
 	r.Rule(fmt.Sprintf("(A) every history of <=%d operations over %d operations x write-cache on/off followed by a closing resync; (B) all schedules with <=%d preemptions of put; flusher || drop / tombstone+expiry+GC; then resync and restart. Monitor on every observation of Get(R); non-trivial = distinct (removal kind, removal observed, fresh upload) outcome classes", depth, len(alphabet), pre))
-	r.Assume("resync is meta.DB.ResyncFromBlobstor run on the stopped shard as neofs-lancet does (write-cache content is not part of it)", "atomics are not scheduling points")
+	r.Assume("puts are issued the way the storage engine drives a shard: Exists first, no Shard.Put for an object that is already there (also when reported expired) or reported removed — Shard.Put documents that existence checks are the caller's", "resync is meta.DB.ResyncFromBlobstor run on the stopped shard as neofs-lancet does (write-cache content is not part of it)", "atomics are not scheduling points")
 	sched.Main(r, scs, 0)
 }
